@@ -348,6 +348,11 @@ def gen_params(rng, d, prof, fwd):
     if g:
         t = (t // g) * g
     t = max(0, min(115199, t))
+    if rng.chance(0.06):
+        # the last seconds before an hour mark (3600k - r, r <= k): where an hour computed with a slightly wrong divisor or
+        # rounding differs from floor(t / 3600)
+        h = min(31, t // 3600 + 1)
+        t = max(0, 3600 * h - rng.randint(1, max(1, h)))
     minw = rng.choice(prof.get("minws") or [0, 60, 180, 180, 180, 300, rng.randint(0, 600)])
     if g:
         minw = rng.choice([0, g, g, 2 * g, 3 * g]) if not prof.get("minws") else minw
